@@ -18,6 +18,24 @@ if TYPE_CHECKING:
 
 logger = logging.getLogger(__name__)
 
+def _represent_generated_object(generated_object) -> str:
+    """
+    Compact representation of an asset or association object: the values of
+    its properties, with the assets in an association field given by name.
+    """
+    properties = []
+    for property_name in generated_object._properties:
+        value = getattr(generated_object, property_name, None)
+        if hasattr(value, 'data') and isinstance(value.data, list):
+            value = [str(getattr(item, 'name', item)) for item in value.data]
+        properties.append('%s=%s' % (property_name,
+            str(value) if value is not None else None))
+    if hasattr(generated_object, 'name'):
+        properties.insert(0, 'name=%s' % generated_object.name)
+    return '<%s %s>' % (
+        generated_object.__class__.__name__, ' '.join(properties))
+
+
 class LanguageClassesFactory:
     def __init__(self, lang_graph: LanguageGraph):
         self.lang_graph: LanguageGraph = lang_graph
@@ -212,6 +230,16 @@ class LanguageClassesFactory:
         # Once we have the JSON schema we create the actual classes.
         builder = pjs.ObjectBuilder(self.json_schema)
         self.ns = builder.build_classes(standardize_names=False)
+
+        # Assets and associations refer to each other. The representation
+        # python_jsonschema_objects gives its objects (also in the message of
+        # every validation error) expands these references over and over: in
+        # a model where ten assets are linked to each other it runs into
+        # gigabytes. Name the objects referred to instead of expanding them.
+        for class_name in dir(self.ns):
+            generated_class = getattr(self.ns, class_name)
+            if isinstance(generated_class, type):
+                generated_class.__repr__ = _represent_generated_object
 
     def get_association_by_signature(
         self,
